@@ -35,6 +35,13 @@
  *          request ` s:<i.j>` (session->recipient_ctx) ` a:<i.j>,<partial_iv>,<is_observe>` (the association of the
  *          request's token), for every response ` p:<i>` (the context whose Sender Sequence Number advanced, `-` none)
  *          ` a:…|none` (the association of the token afterwards).
+ *   oend   <E0: 5> <E1: 5> <seq0> <seq1> <newmid|-1> { q <e> <req> <d|l> | r <e> <resp> <piv 0|1> <d|l> }*
+ *          TWO ENDPOINTS THAT ARE EACH CLIENT AND SERVER ON ONE SESSION (fix 48ee5dc, `is_client`): q = endpoint e protects
+ *          a request of its own on its session (delivered to the session of the other endpoint / lost), r = endpoint e protects
+ *          a response for the token in <resp> on the same session (delivered to the other endpoint / lost).  Output: the
+ *          transcript ` req= ureq= resp= uresp=`, then ` |` and after every step the association of the step's token at the
+ *          acting endpoint (` q:` / ` p:`) and, after a delivery, at the receiving endpoint (` u:` / ` d:`):
+ *          `<partial_iv>,<nonce>,<aad>,<is_observe>,<is_client>` or `none`.
  *   optenc <piv> <kidctx|none> <kid|none> <b2 0|1>      optdec <hex>
  *   aad <alg> <kid> <piv>        nonce <civ> <kid> <piv>     derive <secret> <salt> <idctx> <sid> <rid>
  *   sha256 <m>   hmac <key> <m>   hkdf <salt> <ikm> <info> <len>   ccm <key> <nonce> <aad> <pt>
@@ -900,6 +907,98 @@ down:
   endpoint_down(1);
 }
 
+/* ---- both directions on one session: each endpoint is client AND server (is_client, fix 48ee5dc) ---------- */
+
+static void trace_assoc_e(FILE *t, const char *tag, int e, const uint8_t *dg, size_t len) {
+  coap_pdu_t *pdu = parse_bytes(dg, len);
+  oscore_association_t *a = NULL;
+  coap_bin_const_t tok;
+  fprintf(t, " %s:", tag);
+  if (!pdu) { fprintf(t, "unparsable"); return; }
+  tok = coap_pdu_get_token(pdu);
+  coap_lock_lock(g_ctx[e], coap_delete_pdu(pdu); return);
+  a = oscore_find_association(g_sess[e], &tok);
+  coap_lock_unlock(g_ctx[e]);
+  if (!a) fprintf(t, "none");
+  else {
+    if (a->partial_iv) h_puthex(t, a->partial_iv->s, a->partial_iv->length); else fputc('-', t);
+    fputc(',', t);
+    if (a->nonce) h_puthex(t, a->nonce->s, a->nonce->length); else fputc('-', t);
+    fputc(',', t);
+    if (a->aad) h_puthex(t, a->aad->s, a->aad->length); else fputc('-', t);
+    fprintf(t, ",%d,%d", a->is_observe ? 1 : 0, a->is_client ? 1 : 0);
+  }
+  coap_delete_pdu(pdu);
+}
+
+static void do_oend(char **w, int n) {
+  long newmid = atol(w[13]);
+  char *tbuf = NULL; size_t tlen = 0;
+  FILE *t;
+  coap_pdu_t *res;
+  uint8_t *dg; size_t dglen;
+  int v, k = 14;
+  if (!endpoint_up(0, w + 1, strtoull(w[11], NULL, 10))) { printf("bad-context"); endpoint_down(0); return; }
+  if (!endpoint_up(1, w + 6, strtoull(w[12], NULL, 10))) { printf("bad-context"); endpoint_down(0); endpoint_down(1); return; }
+  /* both sessions can send requests from the start */
+  g_sess[1]->recipient_ctx = g_ctx[1]->p_osc_ctx->recipient_chain;
+  t = open_memstream(&tbuf, &tlen);
+  printf("end");
+  while (k < n) {
+    if (!strcmp(w[k], "q") && k + 3 < n) {
+      int e = atoi(w[k + 1]) ? 1 : 0;
+      coap_pdu_t *req = parse_hex(w[k + 2]);
+      size_t rl; uint8_t *rb;
+      if (!req) { printf(" req=bad-input"); break; }
+      dg = protect(e, req, 0, newmid, &dglen);
+      coap_delete_pdu(req);
+      rb = h_unhex(w[k + 2], &rl);
+      if (!dg) {
+        printf(" req=fail");
+        trace_assoc_e(t, "q", e, rb, rl);
+      } else {
+        printf(" req="); h_puthex(stdout, dg, dglen);
+        trace_assoc_e(t, "q", e, rb, rl);
+        if (w[k + 3][0] == 'd') {
+          v = deliver(1 - e, dg, dglen, &res);
+          printf(" ureq="); print_delivery(v, res);
+          trace_assoc_e(t, "u", 1 - e, rb, rl);
+        }
+        free(dg);
+      }
+      free(rb);
+      k += 4;
+    } else if (!strcmp(w[k], "r") && k + 4 < n) {
+      int e = atoi(w[k + 1]) ? 1 : 0;
+      coap_pdu_t *rsp = parse_hex(w[k + 2]);
+      size_t rl; uint8_t *rb;
+      if (!rsp) { printf(" resp=bad-input"); break; }
+      dg = protect(e, rsp, atoi(w[k + 3]), newmid, &dglen);
+      coap_delete_pdu(rsp);
+      rb = h_unhex(w[k + 2], &rl);
+      if (!dg) {
+        printf(" resp=fail");
+        trace_assoc_e(t, "p", e, rb, rl);
+      } else {
+        printf(" resp="); h_puthex(stdout, dg, dglen);
+        trace_assoc_e(t, "p", e, rb, rl);
+        if (w[k + 4][0] == 'd') {
+          v = deliver(1 - e, dg, dglen, &res);
+          printf(" uresp="); print_delivery(v, res);
+          trace_assoc_e(t, "d", 1 - e, rb, rl);
+        }
+        free(dg);
+      }
+      free(rb);
+      k += 5;
+    } else { printf(" bad-step"); break; }
+  }
+  fclose(t);
+  printf(" |%s", tbuf);
+  free(tbuf);
+  endpoint_down(0); endpoint_down(1);
+}
+
 static void step(char *line) {
   static char *w[160];
   int n = h_words(line, w, 160);
@@ -911,6 +1010,7 @@ static void step(char *line) {
   if (!strcmp(w[0], "findctx")) { do_findctx(w, n); return; }
   if (!strcmp(w[0], "oinj") && n == 19) { do_oinj(w); return; }
   if (!strcmp(w[0], "oscx") && n >= 8) { do_oscx(w, n); return; }
+  if (!strcmp(w[0], "oend") && n >= 14) { do_oend(w, n); return; }
   if (!strcmp(w[0], "optenc") && n == 5) { do_optenc(w); return; }
   if (!strcmp(w[0], "optdec") && n == 2) { do_optdec(w); return; }
   if (!strcmp(w[0], "aad") && n == 4) { do_aad(w); return; }
